@@ -6,11 +6,12 @@ import Driver.Ops
 import Driver.OpsCompare
 import Driver.OpsMatch
 import Driver.OpsApply
+import Driver.OpsCodec
 open Lean
 namespace Driver
 
 def allOps : List (String × Op) :=
-  opsCompare ++ opsMatch ++ opsApply
+  opsCompare ++ opsMatch ++ opsApply ++ opsCodec
 
 def handle (line : String) : Json :=
   match Json.parse line with
